@@ -9,6 +9,7 @@ import (
 	"fmt"
 	"google.golang.org/protobuf/types/known/structpb"
 	"math"
+	"math/big"
 	"strings"
 	"time"
 
@@ -92,11 +93,11 @@ func refValue(fd pref.FieldDescriptor, x, y pref.Value, t tol) bool {
 				}
 				a := mx.Interface().(*durationpb.Duration)
 				b := my.Interface().(*durationpb.Duration)
-				total := (a.Seconds-b.Seconds)*1e9 + int64(a.Nanos) - int64(b.Nanos)
-				if total < 0 {
-					total = -total
-				}
-				return total <= int64(t.durD)
+				// exact: the gap of two 10000-year durations does not fit 64 bits of nanoseconds
+				total := new(big.Int).Mul(big.NewInt(a.Seconds-b.Seconds), big.NewInt(1e9))
+				total.Add(total, big.NewInt(int64(a.Nanos)-int64(b.Nanos)))
+				total.Abs(total)
+				return total.Cmp(big.NewInt(int64(t.durD))) <= 0
 			}
 		}
 		return refMessage(mx, my, t)
@@ -324,6 +325,11 @@ func muts() []mut {
 		{"dur=11s", tm(func(t *T) { wk(t).DefaultDuration = &durationpb.Duration{Seconds: 11} })},
 		{"dur=-10s", tm(func(t *T) { wk(t).DefaultDuration = &durationpb.Duration{Seconds: -10} })},
 		{"dur=0", tm(func(t *T) { wk(t).DefaultDuration = &durationpb.Duration{} })},
+		// beyond what a time.Duration can hold (about 292 years): a durationpb.Duration reaches 10000 years
+		{"dur=+200y", tm(func(t *T) { wk(t).DefaultDuration = &durationpb.Duration{Seconds: 200 * 31557600} })},
+		{"dur=-200y", tm(func(t *T) { wk(t).DefaultDuration = &durationpb.Duration{Seconds: -200 * 31557600} })},
+		{"dur=300y", tm(func(t *T) { wk(t).DefaultDuration = &durationpb.Duration{Seconds: 300 * 31557600} })},
+		{"dur=400y", tm(func(t *T) { wk(t).DefaultDuration = &durationpb.Duration{Seconds: 400 * 31557600} })},
 		{"wk=nil", tm(func(t *T) { t.DefaultWellKnown = nil })},
 		{"rint+3", tm(func(t *T) { t.RepeatedInt32 = append(append([]int32{}, t.RepeatedInt32...), 3) })},
 		{"rint[0]=7", tm(func(t *T) {
